@@ -6,7 +6,8 @@ request:  parse <cfg> <wc> NL <k> <idx>*k  EV <event>*
           NL: the lexer's newline_idx list (for lookup_colno)
           event = <T|!> <type> <'value> <lexpos> <lineno> <colno> <lexposAfter> <linenoAfter> <nh> (<htype> <'hvalue> <hlexpos> <hlineno> <hcolno>)*nh
                   T = delivered by lexer.token(), ! = returned by p_error (with errok), E = lexer.token() returned None
-reply:    OK <tree, canonical Val wire format>
+          text <wc> <'text>                  the full composed model Model.Parser.parse (lexer + LR + actions)
+reply:    OK <tree, canonical Val wire format>   (| SYNTAX <'msg> | REGEXSYNTAX <'msg> | MODELGAP … for `text`)
         | ERROR@<events consumed>            syntax error not repaired by the trace
         | PRODERR <'message>                 ProductionError raised by a semantic action
         | INTERNAL <what> | FUEL | BADREQ <why>
@@ -16,6 +17,7 @@ import CalmVerif.Util.Val
 import CalmVerif.Model.Grammar
 import CalmVerif.Model.Actions
 import CalmVerif.Gen.Actions
+import CalmVerif.Model.Parser
 open CalmVerif CalmVerif.Model CalmVerif.Model.LR CalmVerif.Model.Actions
 
 structure Ev where
@@ -36,15 +38,14 @@ inductive PErr where
 def traceSource : Source Tok Src PErr :=
   { next := fun s => match s.evs with
       | e :: r =>
-        if e.injected then (none, s)
-        else if e.eof then (none, { evs := r, consumed := s.consumed + 1, cur := e.after })
-        else (some e.tok, { evs := r, consumed := s.consumed + 1, cur := e.after })
-      | [] => (none, s),
+        if e.injected then .ok (none, s)
+        else if e.eof then .ok (none, { evs := r, consumed := s.consumed + 1, cur := e.after })
+        else .ok (some e.tok, { evs := r, consumed := s.consumed + 1, cur := e.after })
+      | [] => .ok (none, s),
     onError := fun s _ => match s.evs with
       | e :: r => if e.injected then .ok (some e.tok, { evs := r, consumed := s.consumed + 1, cur := e.after })
                   else .error (.syntax s.consumed)
-      | [] => .error (.syntax s.consumed),
-    curPos := fun s => s.cur }
+      | [] => .error (.syntax s.consumed) }
 
 def parseNat (s : String) : Option Nat := s.toNat?
 def parseInt (s : String) : Option Int := s.toInt?
@@ -99,11 +100,11 @@ def handle (line : String) : String :=
         | some nl, some evs =>
           let lookupCol : Nat → Nat → Option Int := fun lineno lexpos =>
             if lineno = 0 then none else (nl[lineno - 1]?).map fun i => (lexpos : Int) - (i : Int) + 1
-          let sem : Sem Tok PVal PErr :=
+          let sem : Sem Tok PVal Src PErr :=
             { ty := fun t => (Grammar.termIdx t.type).getD T.numTerminals,
               leaf := Actions.leaf,
-              reduce := fun p args pos =>
-                match Actions.reduce Gen.Actions.actions (wc == "1") lookupCol p args pos with
+              reduce := fun p args src =>
+                match Actions.reduce Gen.Actions.actions (wc == "1") lookupCol p args src.cur with
                 | .ok v => .ok v
                 | .error e => .error (.act e) }
           let fuel := 60 * (evs.length + 2) + 1000
@@ -121,6 +122,22 @@ def handle (line : String) : String :=
       | [] => "BADREQ NL"
     | none, _ => "BADREQ config"
     | _, none => "BADREQ no EV"
+  | ["text", wc, enc] =>
+    match Proto.decStr enc with
+    | some t =>
+      match Parser.parse t.toList (wc == "1") with
+      | .accepted v => "OK " ++ (Actions.canon v.v).render
+      | .error (.lex (.syntax m)) => "SYNTAX " ++ Proto.encStr m
+      | .error (.lex (.regexSyntax m)) => "REGEXSYNTAX " ++ Proto.encStr m
+      | .error (.lex (.internal k)) => "INTERNAL " ++ k
+      | .error (.lex (.modelGap w)) => "MODELGAP " ++ w
+      | .error (.lex .outOfFuel) => "FUEL lexer"
+      | .error (.act (.production m)) => "SYNTAX " ++ Proto.encStr m
+      | .error (.act (.internal w)) => "INTERNAL " ++ w
+      | .internal w => "INTERNAL driver:" ++ w
+      | .recovery => "RECOVERY"
+      | .outOfFuel => "FUEL"
+    | none => "BADREQ text"
   | _ => "BADREQ"
 
 def main : IO Unit := lineLoop handle
